@@ -3,6 +3,7 @@ package main
 import (
 	"fmt"
 	"go/token"
+	"go/types"
 
 	"golang.org/x/tools/go/ssa"
 )
@@ -264,19 +265,24 @@ func c03r2(c *Ctx) {
 			continue
 		}
 		// the recorder: receiver of the call that yields the returned ProbingResult on nil-error returns
-		var recorder *ssa.Alloc
+		// (the recorder is whatever object that call is made on: a local variable, a literal behind a
+		// pointer, or the pointer a constructor returned — see c03RecHandle)
+		var recorder ssa.Value
 		var resultCall *ssa.Call
 		oRes := c.Ob(fn, "result-from-recorder", nil, "every return that may carry a nil error returns the recorder's result computed after the object loop")
-		var badRes []string
+		var badRes, undecRes []string
 		for _, rc := range p.pfReturnCases(fn) {
 			if !p.pfPossiblyNilUnder(rc.Results[eiFn], rc.Facts) {
 				continue
 			}
-			rcall, _ := asCall(rc.Results[piFn])
-			var recv *ssa.Alloc
-			if rcall != nil {
+			rcall, ri := asCall(rc.Results[piFn])
+			var recv ssa.Value
+			if rcall != nil && ri < 0 && staticCallee(rcall.Common()) != nil {
 				if r := callRecv(rcall.Common()); r != nil {
-					recv, _ = r.(*ssa.Alloc)
+					if recv = p.c03RecHandle(r, 0); recv == nil {
+						undecRes = append(undecRes, "return at "+p.IPos(rc.Ret)+": the ProbingResult is "+p.describe(rc.Results[piFn])+", whose receiver is neither a local recorder variable nor the pointer returned by a constructor call; which object recorded the probes is not decided")
+						continue
+					}
 				}
 			}
 			if recv == nil {
@@ -296,13 +302,15 @@ func c03r2(c *Ctx) {
 		}
 		switch {
 		case len(badRes) > 0:
-			oRes.Fail("%s", pfJoin(badRes))
+			oRes.Fail("%s", pfJoin(append(badRes, undecRes...)))
+		case len(undecRes) > 0:
+			oRes.Unknown("%s", pfJoin(undecRes))
 		case recorder == nil:
 			oRes.Unknown("no nil-error return found")
 		default:
 			oRes.OK("result = " + p.describe(resultCall) + " at " + p.IPos(resultCall))
 		}
-		if recorder == nil {
+		if recorder == nil || len(undecRes) > 0 {
 			continue
 		}
 		isRecorderCall := func(in ssa.Instruction) *ssa.Call {
@@ -310,7 +318,7 @@ func c03r2(c *Ctx) {
 			if !ok || cv == resultCall {
 				return nil
 			}
-			if r := callRecv(cv.Common()); r == ssa.Value(recorder) && staticCallee(cv.Common()) != nil {
+			if r := callRecv(cv.Common()); r != nil && staticCallee(cv.Common()) != nil && p.c03RecHandle(r, 0) == recorder {
 				return cv
 			}
 			return nil
@@ -368,10 +376,326 @@ func c03r2(c *Ctx) {
 	}
 }
 
+// c03RecHandle resolves the receiver of a method call to the SSA value that stands for the object
+// the method works on, independent of how the function holds it: the local variable the object
+// lives in (`rec := T{…}`, `var rec T`, `rec := newT(…)` returning a value — the Alloc whose address
+// the pointer-receiver calls take; also `rec := &T{…}` / `new(T)`, an Alloc as well), or the call
+// that built the object and returned a pointer to it (`rec := newT(…)` returning *T). A pointer kept
+// in a local variable with one reaching assignment is looked through, and a value-receiver call
+// (`(T).M(*rec)`) stands for the variable it copies. nil: anything else (a merge of several
+// objects, a parameter, a field of something).
+func (p *Program) c03RecHandle(recv ssa.Value, depth int) ssa.Value {
+	recv = stripConv(recv)
+	switch x := recv.(type) {
+	case *ssa.Alloc:
+		if c03PointeeStruct(x.Type()) != nil {
+			return x
+		}
+	case *ssa.Call:
+		if callee := staticCallee(x.Common()); callee != nil && callee.Blocks != nil && c03PointeeStruct(x.Type()) != nil {
+			return x
+		}
+	case *ssa.UnOp:
+		a, isAlloc := x.X.(*ssa.Alloc)
+		if x.Op != token.MUL || !isAlloc || depth > 3 {
+			return nil
+		}
+		if _, isStruct := x.Type().Underlying().(*types.Struct); isStruct {
+			return a // value receiver: the call sees a copy of this variable
+		}
+		if src, ok := p.loadSource(x); ok {
+			return p.c03RecHandle(src, depth+1)
+		}
+	}
+	return nil
+}
+
+// c03PointeeStruct: t is a pointer to a struct type; returns the struct.
+func c03PointeeStruct(t types.Type) *types.Struct {
+	pt, ok := t.Underlying().(*types.Pointer)
+	if !ok {
+		return nil
+	}
+	st, _ := pt.Elem().Underlying().(*types.Struct)
+	return st
+}
+
+func c03FieldIndex(t types.Type, name string) int {
+	if pt, ok := t.Underlying().(*types.Pointer); ok {
+		t = pt.Elem()
+	}
+	if st, ok := t.Underlying().(*types.Struct); ok {
+		for i := 0; i < st.NumFields(); i++ {
+			if st.Field(i).Name() == name {
+				return i
+			}
+		}
+	}
+	return -1
+}
+
+// c03FieldAlt is one value a field of a returned struct value can have (Val nil: still zero) with
+// what is known on the ways that definition is the one in effect.
+type c03FieldAlt struct {
+	Val   ssa.Value
+	Facts []Fact
+}
+
+// c03FieldAlts: the values field `field` of the struct value v can hold — v is a literal, a local
+// variable filled field by field (judged per reaching definition, fieldDefsAt), a zero constant or
+// a merge of those.
+func (p *Program) c03FieldAlts(v ssa.Value, field string, depth int) (alts []c03FieldAlt, ok bool) {
+	v = stripConv(v)
+	if depth > 4 {
+		return nil, false
+	}
+	switch x := v.(type) {
+	case *ssa.Const:
+		if x.Value == nil {
+			return []c03FieldAlt{{}}, true
+		}
+	case *ssa.UnOp:
+		a, isAlloc := x.X.(*ssa.Alloc)
+		if x.Op != token.MUL || !isAlloc {
+			return nil, false
+		}
+		idx := c03FieldIndex(a.Type(), field)
+		if idx < 0 {
+			return nil, false
+		}
+		defs, ok := p.fieldDefsAt(a, idx, x, nil)
+		if !ok {
+			return nil, false
+		}
+		for _, d := range defs {
+			switch {
+			case d.Whole != nil:
+				sub, ok := p.c03FieldAlts(d.Whole, field, depth+1)
+				if !ok {
+					return nil, false
+				}
+				for _, sa := range sub {
+					alts = append(alts, c03FieldAlt{Val: sa.Val, Facts: append(append([]Fact{}, d.Facts...), sa.Facts...)})
+				}
+			default:
+				alts = append(alts, c03FieldAlt{Val: d.Val, Facts: d.Facts})
+			}
+		}
+		return alts, true
+	case *ssa.Phi:
+		for i, e := range x.Edges {
+			if i >= len(x.Block().Preds) {
+				return nil, false
+			}
+			sub, ok := p.c03FieldAlts(e, field, depth+1)
+			if !ok {
+				return nil, false
+			}
+			ef := p.FactsOnEdge(x.Block().Preds[i], x.Block())
+			for _, sa := range sub {
+				alts = append(alts, c03FieldAlt{Val: sa.Val, Facts: append(append([]Fact{}, ef...), sa.Facts...)})
+			}
+		}
+		return alts, true
+	}
+	return nil, false
+}
+
+// c03NameCtx: the function a definition of the recorder's name is read in; inside a constructor the
+// parameters stand for the arguments of the constructor call (judged in the context above).
+type c03NameCtx struct {
+	fn   *ssa.Function
+	call *ssa.Call
+	up   *c03NameCtx
+}
+
+// c03NameJudge collects, for the recorder object `h` (see c03RecHandle) as it is when `use` runs,
+// every definition its name field can have: the variable assigned as a whole from a literal, from
+// another variable or from a constructor call (value result: each return of the constructor is
+// judged the same way), the name field stored on its own (literal built in place, field-by-field
+// construction), or — the recorder being the pointer a constructor returned — the object each
+// return of the constructor hands out, plus the stores made through that pointer afterwards. Every
+// definition must satisfy good; always reports that one definition is executed on every way to use.
+type c03NameJudge struct {
+	p         *Program
+	c         *Ctx
+	nameField string
+	good      func(v ssa.Value) bool // judged in the outermost function
+	bad       []string
+	n         int
+}
+
+// resolve follows a constructor parameter to the argument given at the constructor call (up to the
+// outermost function); nil when the value is computed inside a constructor.
+func (j *c03NameJudge) resolve(v ssa.Value, ctx *c03NameCtx) ssa.Value {
+	v = stripConv(v)
+	if ctx.up == nil {
+		return v
+	}
+	prm, ok := v.(*ssa.Parameter)
+	if !ok {
+		return nil
+	}
+	for i, q := range ctx.fn.Params {
+		if q == prm && i < len(ctx.call.Common().Args) {
+			return j.resolve(ctx.call.Common().Args[i], ctx.up)
+		}
+	}
+	return nil
+}
+
+func (j *c03NameJudge) isGood(v ssa.Value, ctx *c03NameCtx) bool {
+	r := j.resolve(v, ctx)
+	return r != nil && j.good(r)
+}
+
+func (j *c03NameJudge) describe(v ssa.Value, ctx *c03NameCtx) string {
+	if r := j.resolve(v, ctx); r != nil {
+		return j.p.describe(r)
+	}
+	return j.p.describe(v) + " (computed in " + ctx.fn.Name() + ")"
+}
+
+func c03Dominates(d, use ssa.Instruction) bool {
+	db, ub := d.Block(), use.Block()
+	if db == nil || ub == nil || db.Parent() != ub.Parent() {
+		return false
+	}
+	if db == ub {
+		return instrIndex(d) < instrIndex(use)
+	}
+	return db.Dominates(ub)
+}
+
+// object: definitions of the name of the object behind handle h at `use`.
+func (j *c03NameJudge) object(h ssa.Value, ctx *c03NameCtx, use ssa.Instruction, depth int) (always bool) {
+	p := j.p
+	if depth > 5 {
+		j.bad = append(j.bad, "the recorder is built through too many steps")
+		return false
+	}
+	// stores through the handle: the whole object, or its name field
+	for _, r := range referrersOf(h) {
+		switch x := r.(type) {
+		case *ssa.Store:
+			if x.Addr != h {
+				continue
+			}
+			j.n++
+			if j.value(x.Val, ctx, x, depth+1) && c03Dominates(x, use) {
+				always = true
+			}
+		case *ssa.FieldAddr:
+			if fieldName(x.X.Type(), x.Field) != j.nameField {
+				continue
+			}
+			for _, rr := range referrersOf(x) {
+				if st, isSt := rr.(*ssa.Store); isSt && st.Addr == ssa.Value(x) {
+					j.n++
+					if !j.isGood(st.Val, ctx) {
+						j.bad = append(j.bad, "the recorder is named "+j.describe(st.Val, ctx)+" at "+p.IPos(st)+", not <phase parameter>.Name")
+					} else if c03Dominates(st, use) {
+						always = true
+					}
+				}
+			}
+		}
+	}
+	if call, isCall := h.(*ssa.Call); isCall {
+		// the object was built by the constructor: what every return of it hands out
+		ctor := staticCallee(call.Common())
+		if ctor == nil || ctor.Blocks == nil {
+			j.bad = append(j.bad, "the recorder is not built by a constructor call or a literal")
+			return false
+		}
+		for u := ctx; u != nil; u = u.up {
+			if u.fn == ctor {
+				j.bad = append(j.bad, "recursive constructor "+ctor.Name())
+				return false
+			}
+		}
+		j.c.Visit(ctor)
+		sub := &c03NameCtx{fn: ctor, call: call, up: ctx}
+		all, any := true, false
+		for _, rc := range p.pfReturnCases(ctor) {
+			if len(rc.Results) != 1 {
+				j.bad = append(j.bad, "constructor "+ctor.Name()+" does not return one recorder")
+				return false
+			}
+			any = true
+			rh := p.c03RecHandle(rc.Results[0], 0)
+			if rh == nil {
+				j.bad = append(j.bad, "constructor "+ctor.Name()+" returns "+p.describe(rc.Results[0])+" at "+p.IPos(rc.Ret)+", which is not an object built there")
+				all = false
+				continue
+			}
+			if !j.object(rh, sub, rc.Ret, depth+1) {
+				all = false
+			}
+		}
+		if any && all {
+			always = true
+		}
+	}
+	return always
+}
+
+// value: the struct value v (assigned to the recorder as a whole) carries a good name.
+func (j *c03NameJudge) value(v ssa.Value, ctx *c03NameCtx, at ssa.Instruction, depth int) bool {
+	p := j.p
+	v = stripConv(v)
+	if depth > 5 {
+		j.bad = append(j.bad, "the recorder is built through too many steps")
+		return false
+	}
+	switch x := v.(type) {
+	case *ssa.UnOp:
+		if a, isAlloc := x.X.(*ssa.Alloc); isAlloc && x.Op == token.MUL {
+			// a literal (`local T (complit)`) or another local variable, read here
+			if !j.object(a, ctx, x, depth+1) {
+				j.bad = append(j.bad, "the recorder value assigned at "+p.IPos(at)+" is not named <phase parameter>.Name on every path")
+				return false
+			}
+			return true
+		}
+	case *ssa.Call:
+		ctor := staticCallee(x.Common())
+		if ctor == nil || ctor.Blocks == nil {
+			break
+		}
+		for u := ctx; u != nil; u = u.up {
+			if u.fn == ctor {
+				j.bad = append(j.bad, "recursive constructor "+ctor.Name())
+				return false
+			}
+		}
+		j.c.Visit(ctor)
+		sub := &c03NameCtx{fn: ctor, call: x, up: ctx}
+		all, any := true, false
+		for _, rc := range p.pfReturnCases(ctor) {
+			if len(rc.Results) != 1 {
+				all = false
+				break
+			}
+			any = true
+			if !j.value(rc.Results[0], sub, rc.Ret, depth+1) {
+				all = false
+			}
+		}
+		if !any || !all {
+			j.bad = append(j.bad, "constructor "+ctor.Name()+" does not initialise "+j.nameField+" from a parameter that is given <phase parameter>.Name")
+			return false
+		}
+		return true
+	}
+	j.bad = append(j.bad, "the recorder is not built by a constructor call or a literal ("+p.describe(v)+" at "+p.IPos(at)+")")
+	return false
+}
+
 // c03RecorderInternals checks the recorder type: Result() is zero only without failures and carries
 // the name the recorder was constructed with, which is phase.Name; the probing method records a
 // failure whenever the prober says not ok.
-func c03RecorderInternals(c *Ctx, fn *ssa.Function, recorder *ssa.Alloc, resultCall *ssa.Call) {
+func c03RecorderInternals(c *Ctx, fn *ssa.Function, recorder ssa.Value, resultCall *ssa.Call) {
 	p := c.P
 	resFn := staticCallee(resultCall.Common())
 	o := c.Ob(resFn, "recorder-result", nil, "the recorder's result is the zero ProbingResult only when no failure was recorded; otherwise it carries the recorder's name and failures; the name is phase.Name")
@@ -382,55 +706,102 @@ func c03RecorderInternals(c *Ctx, fn *ssa.Function, recorder *ssa.Alloc, resultC
 	recv := resFn.Params[0]
 	var bad []string
 	nameField, failField := "", ""
-	for _, rc := range p.pfReturnCases(resFn) {
-		v := rc.Results[0]
-		if pfIsZeroConst(v) {
-			// must be under len(recv.<failures>) == 0
-			ok := false
-			for _, f := range rc.Facts {
-				if x, nonEmptyWhenTrue, isLen := lenCmp(f.Cond); isLen && f.Pol != nonEmptyWhenTrue {
-					if u, isLoad := x.(*ssa.UnOp); isLoad {
-						if fa, isFA := u.X.(*ssa.FieldAddr); isFA && fa.X == ssa.Value(recv) {
-							ok = true
-							failField = fieldName(fa.X.Type(), fa.Field)
-						}
-					}
+	// recvField: v reads a field of the method's receiver (pointer or value receiver)
+	recvField := func(v ssa.Value) string {
+		switch x := stripConv(v).(type) {
+		case *ssa.UnOp:
+			if fa, isFA := x.X.(*ssa.FieldAddr); isFA && x.Op == token.MUL && fa.X == ssa.Value(recv) {
+				return fieldName(fa.X.Type(), fa.Field)
+			}
+		case *ssa.Field:
+			if x.X == ssa.Value(recv) {
+				return fieldName(x.X.Type(), x.Field)
+			}
+		}
+		return ""
+	}
+	emptyGuard := func(fs []Fact) string {
+		for _, f := range fs {
+			if x, nonEmptyWhenTrue, isLen := lenCmp(f.Cond); isLen && f.Pol != nonEmptyWhenTrue {
+				if n := recvField(x); n != "" {
+					return n
 				}
 			}
-			if !ok {
+		}
+		return ""
+	}
+	for _, rc := range p.pfReturnCases(resFn) {
+		v := rc.Results[0]
+		names, ok1 := p.c03FieldAlts(v, "PhaseName", 0)
+		fails, ok2 := p.c03FieldAlts(v, "FailedProbes", 0)
+		if !ok1 || !ok2 {
+			bad = append(bad, "result at "+p.IPos(rc.Ret)+" is neither a ProbingResult literal nor a local ProbingResult filled field by field")
+			continue
+		}
+		// a field left zero claims "nothing failed" (IsZero needs both empty): only under len(<recorded failures>) == 0
+		allZero := true
+		for _, alts := range [][]c03FieldAlt{names, fails} {
+			for _, a := range alts {
+				if a.Val != nil {
+					allZero = false
+				}
+			}
+		}
+		unguarded := false
+		for _, alts := range [][]c03FieldAlt{names, fails} {
+			for _, a := range alts {
+				if a.Val != nil {
+					continue
+				}
+				g := emptyGuard(append(append([]Fact{}, rc.Facts...), a.Facts...))
+				if g == "" {
+					unguarded = true
+					continue
+				}
+				if failField == "" {
+					failField = g
+				} else if failField != g {
+					bad = append(bad, "the emptiness guards test "+failField+" and "+g)
+				}
+			}
+		}
+		if unguarded {
+			if allZero {
 				bad = append(bad, "zero ProbingResult returned at "+p.IPos(rc.Ret)+" without the guard len(<recorded failures>) == 0")
+			} else {
+				bad = append(bad, "result at "+p.IPos(rc.Ret)+" may leave PhaseName or FailedProbes unset without the guard len(<recorded failures>) == 0")
 			}
+		}
+		if allZero {
 			continue
 		}
-		fields, _, ok := compositeFields(v)
-		if !ok {
-			bad = append(bad, "result at "+p.IPos(rc.Ret)+" is not a ProbingResult literal")
-			continue
-		}
-		if u, isLoad := fields["PhaseName"].(*ssa.UnOp); isLoad {
-			if fa, isFA := u.X.(*ssa.FieldAddr); isFA && fa.X == ssa.Value(recv) {
-				nameField = fieldName(fa.X.Type(), fa.Field)
+		for _, a := range names {
+			if a.Val == nil {
+				continue
+			}
+			if n := recvField(a.Val); n == "" {
+				bad = append(bad, "PhaseName of the result is not the recorder's name field")
+			} else if nameField != "" && nameField != n {
+				bad = append(bad, "PhaseName of the result is taken from "+nameField+" and from "+n)
+			} else {
+				nameField = n
 			}
 		}
-		if nameField == "" {
-			bad = append(bad, "PhaseName of the result is not the recorder's name field")
-		}
-		ff := ""
-		if u, isLoad := fields["FailedProbes"].(*ssa.UnOp); isLoad {
-			if fa, isFA := u.X.(*ssa.FieldAddr); isFA && fa.X == ssa.Value(recv) {
-				ff = fieldName(fa.X.Type(), fa.Field)
+		for _, a := range fails {
+			if a.Val == nil {
+				continue
 			}
-		}
-		if ff == "" {
-			bad = append(bad, "FailedProbes of the result is not the recorder's failure list")
-		} else if failField != "" && ff != failField {
-			bad = append(bad, "the emptiness guard tests "+failField+" but the result carries "+ff)
+			ff := recvField(a.Val)
+			if ff == "" {
+				bad = append(bad, "FailedProbes of the result is not the recorder's failure list")
+			} else if failField != "" && ff != failField {
+				bad = append(bad, "the emptiness guard tests "+failField+" but the result carries "+ff)
+			}
 		}
 	}
 	// construction: every definition of the recorder's name that can be in effect when the result is
-	// taken gives it <phase parameter>.Name — the variable assigned as a whole from a constructor call
-	// or a literal, or a literal built in place (field stores); one of the definitions is always
-	// executed before the result is taken, and no method called on the recorder renames it.
+	// taken gives it <phase parameter>.Name (c03NameJudge); one of the definitions is always executed
+	// before the result is taken, and no method called on the recorder renames it.
 	if nameField != "" {
 		isPhaseName := func(v ssa.Value) bool {
 			root, ok := p.pfFieldLoad(v, "Name")
@@ -440,71 +811,19 @@ func c03RecorderInternals(c *Ctx, fn *ssa.Function, recorder *ssa.Alloc, resultC
 			prm, isP := p.pfRootValue(root).(*ssa.Parameter)
 			return isP && namedTypeString(prm.Type()) == pfTypPhase
 		}
-		var defs []ssa.Instruction
-		for _, st := range p.allocInfo(recorder).stores {
-			defs = append(defs, st)
-			if fields, _, isLit := compositeFields(st.Val); isLit {
-				if nv := fields[nameField]; nv == nil || !isPhaseName(nv) || fields[nameField+"#dup"] != nil {
-					bad = append(bad, "the recorder literal at "+p.IPos(st)+" is not named <phase parameter>.Name")
-				}
-				continue
-			}
-			ctorCall, _ := asCall(st.Val)
-			var ctor *ssa.Function
-			if ctorCall != nil {
-				ctor = staticCallee(ctorCall.Common())
-			}
-			if ctor == nil || ctor.Blocks == nil {
-				bad = append(bad, "the recorder is not built by a constructor call or a literal")
-				continue
-			}
-			c.Visit(ctor)
-			pi := -1
-			for _, rc := range p.pfReturnCases(ctor) {
-				if fields, _, ok := compositeFields(rc.Results[0]); ok {
-					for i, prm := range ctor.Params {
-						if fields[nameField] == ssa.Value(prm) {
-							pi = i
-						}
-					}
-				}
-			}
-			if pi < 0 {
-				bad = append(bad, "constructor does not initialise "+nameField+" from a parameter")
-			} else if arg := ctorCall.Common().Args[pi]; !isPhaseName(arg) {
-				bad = append(bad, "the recorder is named "+p.describe(arg)+", not <phase parameter>.Name")
-			}
-		}
-		for _, r := range referrersOf(recorder) {
-			fa, isFA := r.(*ssa.FieldAddr)
-			if !isFA || fieldName(fa.X.Type(), fa.Field) != nameField {
-				continue
-			}
-			for _, rr := range referrersOf(fa) {
-				if st, isSt := rr.(*ssa.Store); isSt && st.Addr == ssa.Value(fa) {
-					defs = append(defs, st)
-					if !isPhaseName(st.Val) {
-						bad = append(bad, "the recorder is named "+p.describe(st.Val)+" at "+p.IPos(st)+", not <phase parameter>.Name")
-					}
-				}
-			}
-		}
-		always := false
-		for _, d := range defs {
-			db, rb := d.Block(), resultCall.Block()
-			if (db == rb && instrIndex(d) < instrIndex(resultCall)) || (db != rb && db.Dominates(rb)) {
-				always = true
-			}
-		}
+		j := &c03NameJudge{p: p, c: c, nameField: nameField, good: isPhaseName}
+		always := j.object(recorder, &c03NameCtx{fn: fn}, resultCall, 0)
+		bad = append(bad, dedupe(j.bad)...)
 		switch {
-		case len(defs) == 0:
+		case len(j.bad) > 0:
+		case j.n == 0 && !always:
 			bad = append(bad, "no definition of the recorder's "+nameField+" found")
 		case !always:
 			bad = append(bad, "the recorder's "+nameField+" may still be unset when the result is taken")
 		}
 		for _, cc := range callsIn(fn) {
 			callee := staticCallee(cc.Common)
-			if callee == nil || callee.Blocks == nil || len(callee.Params) == 0 || callRecv(cc.Common) != ssa.Value(recorder) {
+			if callee == nil || callee.Blocks == nil || len(callee.Params) == 0 || callRecv(cc.Common) == nil || p.c03RecHandle(callRecv(cc.Common), 0) != recorder {
 				continue
 			}
 			for _, b := range callee.Blocks {
@@ -528,7 +847,7 @@ func c03RecorderInternals(c *Ctx, fn *ssa.Function, recorder *ssa.Alloc, resultC
 	seen := map[*ssa.Function]bool{}
 	for _, cc := range callsIn(fn) {
 		callee := staticCallee(cc.Common)
-		if callee == nil || seen[callee] || callRecv(cc.Common) != ssa.Value(recorder) {
+		if callee == nil || seen[callee] || callRecv(cc.Common) == nil || p.c03RecHandle(callRecv(cc.Common), 0) != recorder {
 			continue
 		}
 		seen[callee] = true
